@@ -6,7 +6,7 @@ SPEC = dict(
     harness=['h_tree.c'], cflags=['-DVF_TREE_RBT'],
     level='exploration',
     rule='(1) every coloured red-black shape reachable through the real library with <= N nodes (N=12 quick, 16 thorough) is enumerated by a fixpoint over '
-         'insert/remove transitions; on each shape EVERY insert position (n+1 gaps), every remove (n nodes), every duplicate insert and every '
+         'insert/remove transitions; on each shape EVERY insert position (n+1 gaps), every remove (n nodes), every duplicate insert (with a fresh equal-key node and with the resident node object itself) and every '
          'lookup is executed through the library and followed by the invariant walker (BST order, black root, no red-red edge, equal black height on every path, parent '
          'links, node identity, element set == model) - because the code only compares keys this is every (state, operation) pair of every '
          'history whose tree stays within N nodes. (2) seeded random/adversarial histories (9 patterns, key spaces 8..4096, a_rbt_insert and the '
@@ -14,7 +14,7 @@ SPEC = dict(
          '(structure + colours) trees on which the walker ran after an operation.',
     exhaustive={'quick': 'all (shape, operation) pairs for reachable red-black shapes with <= 12 nodes',
                 'thorough': 'all (shape, operation) pairs for reachable red-black shapes with <= 16 nodes'},
-    require=['walker-runs', 'bfs-insert-transitions', 'bfs-remove-transitions', 'dup-insert-returns-resident',
+    require=['walker-runs', 'bfs-insert-transitions', 'bfs-remove-transitions', 'dup-insert-returns-resident', 'dup-insert-of-resident-object',
              'insert-returns-null-for-new-key', 'search-agrees-with-model'],
     cov_files=['rbt.c'], cov_funcs=r'^a_rbt_(?!head|tail|next|prev|pre_|post_|tear)', cov_cases=120,
     assumptions=_COMMON + ['the three A_ASSUME() in a_rbt_remove_adjust compile to __builtin_unreachable under gcc 12, which UBSan traps', 'removed nodes are free()d immediately, so a stale link is reported by ASan as use-after-free',
